@@ -46,7 +46,7 @@ var devKinds = []string{
 	"none", "drop", "dup", "swap", "retarget-unknown", "retarget-finished", "retarget-live", "retarget-negative",
 	"kind-msg-more", "kind-to-cancel", "kind-to-half", "empty", "data-minus1", "data-plus1", "size-zero", "size-minus1", "size-plus1", "size-max",
 	"method-empty", "method-noslash", "method-slash", "method-unknown-service", "method-unknown-method", "rev-unknown",
-	"win-zero", "win-max", "insert-new-dup", "insert-new-lower", "insert-new-negative", "insert-frame-unknown-id", "big-chunk", "insert-data-after",
+	"win-zero", "win-max", "insert-new-reuse-last-finished", "insert-new-dup", "insert-new-lower", "insert-new-negative", "insert-frame-unknown-id", "big-chunk", "insert-data-after",
 }
 
 func genConversation(rng *rand.Rand, nStreams int, maxSize int) *conversation {
@@ -292,6 +292,22 @@ func applyDeviation(c *conversation, kind string, p int, rng *rand.Rand) ([]conv
 		insertAfter(fWin(cur.f.StreamId, 0))
 	case "win-max":
 		insertAfter(fWin(cur.f.StreamId, 0xffffffff))
+	case "insert-new-reuse-last-finished":
+		// frame p must be the half-close of the stream with the highest id created so far:
+		// once its handler has finished, the id equals lastSeen and belongs to no live stream
+		if _, ok := cur.f.Frame.(*tunnelpb.ClientToServer_HalfClose); !ok {
+			return nil, "", false
+		}
+		hi := int64(-1)
+		for q := 0; q <= p; q++ {
+			if _, ok := fr[q].f.Frame.(*tunnelpb.ClientToServer_NewStream); ok && fr[q].f.StreamId > hi {
+				hi = fr[q].f.StreamId
+			}
+		}
+		if hi != cur.f.StreamId {
+			return nil, "", false
+		}
+		insertAfter(fNew(cur.f.StreamId, "verif.Svc/Unary", "dupnew", tunnelpb.ProtocolRevision_REVISION_ONE, 65536))
 	case "insert-new-dup":
 		insertAfter(fNew(cur.f.StreamId, "verif.Svc/Unary", "dupnew", tunnelpb.ProtocolRevision_REVISION_ONE, 65536))
 	case "insert-new-lower":
@@ -498,7 +514,7 @@ func famRawConv(w *World, c *Case, rng *rand.Rand) {
 		w.Env.registerSpec(&RPCSpec{ID: tag, Method: "Unary", Handler: []Op{{K: "recv"}, {K: "send", N: 1}, {K: "ret"}}})
 	}
 	w.Wait() // settings
-	burst := c.p("burst", 0) == 1
+	burst := c.p("burst", 0) == 1 && kind != "insert-new-reuse-last-finished"
 	for i, cf := range frames {
 		if err := rc.Send(cf.f); err != nil {
 			break
@@ -516,7 +532,13 @@ func famRawConv(w *World, c *Case, rng *rand.Rand) {
 	serveErr, serveReturned := w.carrierServerResult()
 	if tunnelDies {
 		w.Stat("raw_expect_tunnel_dead", 1)
+		if _, isNew := frames[diesAt].f.Frame.(*tunnelpb.ClientToServer_NewStream); isNew {
+			w.Stat("raw_bad_new_stream_id", 1)
+		}
 		if !recvDone || !serveReturned {
+			if _, isNew := frames[diesAt].f.Frame.(*tunnelpb.ClientToServer_NewStream); isNew {
+				w.Violate("C08", "non-increasing-id-accepted", "deviation %s: new_stream with id %d, not greater than every id seen, did not end the tunnel", desc, frames[diesAt].f.StreamId)
+			}
 			w.Violate("C09", "tunnel-level-violation-not-fatal", "deviation %s is a tunnel-level violation (frame %d) but the tunnel server kept serving", desc, diesAt)
 		} else if serveErr == "" {
 			w.Violate("C09", "tunnel-level-violation-nil-error", "deviation %s is a tunnel-level violation but the serving call returned a nil error", desc)
@@ -526,6 +548,7 @@ func famRawConv(w *World, c *Case, rng *rand.Rand) {
 		if recvDone || serveReturned {
 			w.Violate("C09", "stream-level-violation-killed-tunnel", "deviation %s is at most a stream-level violation but the tunnel ended (recv err %v, serve err %q)", desc, recvErr, serveErr)
 			w.Violate("C03", "raw-deviation-killed-tunnel", "deviation %s on one stream ended the tunnel (serve err %q)", desc, serveErr)
+			w.Violate("C08", "known-id-frame-killed-tunnel", "deviation %s: only frames for identifiers the server has created or finished with were sent, yet the tunnel ended (serve err %q)", desc, serveErr)
 		}
 	}
 	// ---- per-stream verdicts ----
